@@ -79,11 +79,11 @@ func vkFlagSets() []h_resolver.Flags {
 type vkWorld struct {
 	lastLog  int    // authsim log length when the previous scenario finished
 	lastScen string // previous scenario
-	rot int
-	u   *zonemodel.Universe
-	sim *authsim.Sim
-	pl  *h_resolver.Pipeline
-	c   *vkit.Ctx
+	rot      int
+	u        *zonemodel.Universe
+	sim      *authsim.Sim
+	pl       *h_resolver.Pipeline
+	c        *vkit.Ctx
 }
 
 var vkWorlds = map[int]*vkWorld{}
